@@ -19,7 +19,9 @@ TRUSTED = pc.TRUSTED_T + [
     'by the harness as supporting evidence only',
 ]
 ASSUMPTIONS = ['conical panels are rejected by fstrain (NotImplementedError): outside C11',
-               'stress = F * strain is checked numerically on the implementation (Panel.stress is plain Python)']
+               'stress = F * strain: Panel.stress is plain Python; Props/C11 stress_eq_F_strain / stress_nlterms_forwarded / '
+               'stress_linear_eq_F_donnell are theorems about the hand model panelStress of Model/Chunking.lean, which has no driver: its tie '
+               'to the running code is the numerical clause below (stress resultants vs F times the strains of the same NLterms option)']
 RULE = ('random flat / cylindrical panels (m,n 1..4, generic flags), random amplitude vectors, scattered / gridded / edge '
         'point sets whose size is not a multiple of the core count, 1..16 cores, linear and non-linear strain options, '
         'panels inside assemblies; non-trivial = m*n >= 4 and >= 5 points and cores > 1; distinct by case parameters')
